@@ -166,6 +166,7 @@ def run(p, led, tier):
     for (t, a) in sorted(produced):
         def go(o):
             it = Interp(p, o)
+            it.max_unknown_len = 1
             rule = Obj(rule_cls, dict(name="r", condition=Unknown("rule_condition"), max_severity=Unknown("max_sev"), duration=None))
             it.stubs["SuppressionRule.can_suppress"] = lambda interp, args, kwargs: Unknown("can_suppress")
             tr = it.instantiate(treg, [], dict(rules=[rule], stability_threshold=Unknown("stability_threshold")))
@@ -184,7 +185,7 @@ def run(p, led, tier):
                 raise
             return dict(sup=r.fields["suppressed"], orig=nm(r.fields["original_action"]), mod=nm(r.fields["modified_action"]))
         try:
-            paths = explore(go, max_paths=200)
+            paths = explore(go, max_paths=6000)
         except (Imprecise, PyRaise) as e:
             raise AnchorError(f"RegulatoryTCell.evaluate could not be interpreted: {e!r}")
         key = f"RegulatoryTCell.evaluate ▸ response {t}/{a}"
